@@ -6,6 +6,7 @@ MultiPassReader's end-of-file rule in the Go source changes the regenerated text
 -/
 import Pandora.Gen.ProvLoops
 import Pandora.Model.C08Mach
+import Pandora.Model.C08Scan
 
 namespace Pandora.Bridge.ProvLoops
 open Pandora.Model.C08 Pandora.Gen.ProvLoops
@@ -184,6 +185,73 @@ theorem genStep_eq (b : Bounds) (n a : Nat) (r : Mpr) (ps : Nat) :
     split <;> simp_all
   · have h' : ¬ (b.limit ≤ 0 ∨ a < b.limit) := fun x => h (x.imp (by omega) id)
     simp [h]
+
+
+/-! ## the reading loops of the `Scan` methods, LoadAmmo (round 2)
+
+`Model.C08Scan.roundEof` / `roundTop` are the round functions `Proofs/C08Scan.lean` is about (`src_lines`: the
+line-level decoder is the abstract cyclic source of every provider theorem).  The proofs go through all outcomes of the
+read and all branches, so the order of independent statements in the Go loops does not matter. -/
+
+theorem uriScanRound_eq (passes : Nat) (c : Bool) (rd : Rd) (a p : Nat) :
+    uriScanRound passes c rd a p = roundEof passes c rd a p := by
+  unfold uriScanRound roundEof
+  cases rd <;> cases c <;> (try simp) <;> (repeat' split) <;> (try simp_all) <;> (try omega)
+
+theorem rawScanRound_eq (passes : Nat) (c : Bool) (rd : Rd) (a p : Nat) :
+    rawScanRound passes c rd a p = roundEof passes c rd a p := by
+  unfold rawScanRound roundEof
+  cases rd <;> cases c <;> (try simp) <;> (repeat' split) <;> (try simp_all) <;> (try omega)
+
+theorem uripostScanRound_eq (passes : Nat) (c : Bool) (rd : Rd) (a p : Nat) :
+    uripostScanRound passes c rd a p = roundEof passes c rd a p := by
+  unfold uripostScanRound roundEof
+  cases rd <;> cases c <;> (try simp) <;> (repeat' split) <;> (try simp_all) <;> (try omega)
+
+theorem jsonlScanRound_eq (passes : Nat) (c : Bool) (rd : Rd) (a p : Nat) :
+    jsonlScanRound passes c rd a p = roundTop passes c rd a p := by
+  unfold jsonlScanRound roundTop
+  cases rd <;> (try simp) <;> (repeat' split) <;> (try simp_all) <;> (try omega)
+
+/-- the round function of every stream decoder kind -/
+theorem roundOf_eq (k : Kind) : roundOf (styleOf k) =
+    match k with
+    | .uripost => uripostScanRound
+    | .raw => rawScanRound
+    | .jsonLines => jsonlScanRound
+    | _ => uriScanRound := by
+  funext passes c rd a p
+  cases k <;> simp [styleOf, roundOf, uriScanRound_eq, rawScanRound_eq, uripostScanRound_eq, jsonlScanRound_eq]
+
+/-- uripost.go's outer loop allows as many rewinds per call as the model, and ends like it -/
+theorem scanWraps_eq : scanWraps = uripostScanWraps ∧ uripostScanExhausted = .unexpected := ⟨rfl, rfl⟩
+
+/-- the limit check that opens every `Scan` is the one of `scanFile` / `scanStream` -/
+theorem scanLimit_eq (limit a : Nat) :
+    (uriScanLimit limit a ↔ (limit ≠ 0 ∧ limit ≤ a)) ∧ (rawScanLimit limit a ↔ (limit ≠ 0 ∧ limit ≤ a)) ∧
+    (uripostScanLimit limit a ↔ (limit ≠ 0 ∧ limit ≤ a)) ∧ (jsonlScanLimit limit a ↔ (limit ≠ 0 ∧ limit ≤ a)) := by
+  unfold uriScanLimit rawScanLimit uripostScanLimit jsonlScanLimit
+  refine ⟨?_, ?_, ?_, ?_⟩ <;> constructor <;> intro h <;> exact ⟨h.1, h.2⟩
+
+/-- `LoadAmmo` scans with Passes = 1, Limit = 0 (`loadLines`, `Model.C08.loadAmmo`: `scan ⟨0, 1⟩`), restores the
+configured bounds, keeps an ammo exactly when the scan returned one and goes on exactly while the scan returned no
+error (`Scan` returns an ammo ⇔ it returns no error ⇔ `SRes.ammo`), and hands every error on but ErrPassLimit -/
+theorem loadAmmo_eq (passes limit : Nat) (r : SRes) :
+    (⟨loadAmmoLimit limit, loadAmmoPasses passes⟩ : Bounds) = ⟨0, 1⟩ ∧ loadAmmoRestores = true ∧
+    loadStepOf r = ⟨loadAmmoKeeps (decide (r = .ammo)) (decide (r = .ammo)), loadAmmoGoesOn (decide (r = .ammo))⟩ ∧
+    loadResOf r = loadAmmoMap r := by
+  refine ⟨rfl, rfl, ?_, rfl⟩
+  cases r <;> simp [loadStepOf, loadAmmoKeeps, loadAmmoGoesOn]
+
+/-- `Provider.loadAmmo`: a failed LoadAmmo ends `Run` with the context's own error exactly when the context is
+cancelled and that is what ended the load (`Model.C08Mach.stepOf … .unloaded`: `.ret .canceled`); every other failure is
+wrapped (class kept) — and no ammo is dropped without a ChosenCases filter -/
+theorem httpLoadFail_eq (c : Bool) (e : SRes) :
+    (httpLoadFail c e = .canceled ↔ httpLoadCtxErr (c = true) (e = .canceled)) ∧ httpLoadWraps = true ∧
+    (httpLoadKeeps True ↔ True) := by
+  refine ⟨?_, rfl, by simp [httpLoadKeeps]⟩
+  unfold httpLoadFail httpLoadCtxErr
+  cases c <;> cases e <;> simp
 
 /-! ## the engine's reaction to the provider's result -/
 
